@@ -14,6 +14,7 @@ import (
 
 // SpecEnv is the context in which a contract expression is evaluated.
 type SpecEnv struct {
+	params  map[string]Val // parameters of the function under contract (entry values); a loop-carried variable of the same name shadows them
 	vars    map[string]Val
 	st      *State
 	old     *State
@@ -152,6 +153,9 @@ func (e *Enc) specIdent(name string, env *SpecEnv) Val {
 		if v, ok := e.resolveLocal(env.f, env.blk, name, env.atHead, env.st); ok {
 			return v
 		}
+	}
+	if v, ok := env.params[name]; ok {
+		return v
 	}
 	// package-level constant / variable
 	if obj := e.w.pkg.Pkg.Scope().Lookup(name); obj != nil {
@@ -532,6 +536,12 @@ func (e *Enc) specCall(n *ast.CallExpr, env *SpecEnv) Val {
 			return Val{Sh: sh, T: fmt.Sprintf("(f2i%s%d %s)", bitsTag(sh), bitsOf(sh), v.T)}
 		}
 		return Val{Sh: sh, T: e.wrap(sh, v.T)}
+	case "string":
+		v := arg(0)
+		if v.Sh.K == KStr {
+			return strVal(v.T)
+		}
+		specFail("string() of %s", v.Sh.T)
 	case "float64":
 		v := arg(0)
 		if v.Sh.K == KFloat {
@@ -613,6 +623,35 @@ func (e *Enc) specCall(n *ast.CallExpr, env *SpecEnv) Val {
 			return v
 		}
 		return Val{Sh: shapeOf(types.NewInterfaceType(nil, nil)), Sub: []Val{intVal(fmt.Sprintf("%d", e.w.typeTag(v.Sh.T))), intVal(e.box(v))}}
+	case "mapvalsnonnil":
+		// every value stored in the (interface-valued) map is a non-nil interface
+		m := arg(0)
+		mt, ok := m.Sh.T.Underlying().(*types.Map)
+		if !ok {
+			specFail("mapvalsnonnil of %s", m.Sh.T)
+		}
+		ks := keySort(mt)
+		pth := mapPath(mt)
+		has := e.mapHeap(env.st, pth+"#has", "(Array Int (Array "+ks+" Bool))")
+		typ := e.mapHeap(env.st, pth+"#val#typ", "(Array Int (Array "+ks+" Int))")
+		e.frameLemmas(has, m.T, map[*Heap]bool{})
+		e.frameLemmas(typ, m.T, map[*Heap]bool{})
+		e.ctr["q"]++
+		bv := fmt.Sprintf("k!q%d", e.ctr["q"])
+		return boolVal(fmt.Sprintf("(or (= %s 0) (forall ((%s %s)) (=> (select (select %s %s) %s) (not (= (select (select %s %s) %s) 0)))))", m.T, bv, ks, has.Term, m.T, bv, typ.Term, m.T, bv))
+	case "dynres":
+		// dynres(fn, k): k-th result of the call made through the function-typed parameter fn
+		name := n.Args[0].(*ast.Ident).Name
+		v, ok := e.dynResults[name]
+		if !ok {
+			specFail("no call through %s seen", name)
+		}
+		var k int
+		fmt.Sscanf(n.Args[1].(*ast.BasicLit).Value, "%d", &k)
+		if v.Sh.K == KTuple {
+			return v.Sub[k]
+		}
+		return v
 	case "rscur", "rslen":
 		e.rsDecls()
 		o := e.objRef(arg(0))
